@@ -204,13 +204,17 @@ pub fn build_cli_case(ch: &mut Chooser, cx: &mut CaseCtx, fail_chance: u32, with
     let thorough = cx.env.tier == Tier::Thorough;
     // names needing C quoting only where rejects are not read back (with_goal = C05)
     let nasty_names = with_goal && ch.chance(1, 4);
-    let o = WsGenOpts { fail_chance, nasty_names, max_patches: if thorough { 12 } else { 6 }, ..Default::default() };
+    let o = WsGenOpts { fail_chance, nasty_names, allow_misordered: true, second_failure: true, max_patches: if thorough { 12 } else { 6 }, ..Default::default() };
     let ws = gen_ws(ch, cx, &o);
     let mut opts = gen_opts(ch, true);
     if with_goal {
         opts.goal = gen_goal(ch, &ws);
     }
     let prior = if ch.chance(1, 4) { ch.below(ws.applicable() + 1) } else { 0 };
+    // a hunk that fails as "misordered" at fuzz 0 may find another place once context is trimmed
+    if ws.metas.iter().any(|m| m.ops.iter().any(|o| o.fail_reason.as_deref() == Some("misordered"))) {
+        opts.fuzz = None;
+    }
     CliCase { ws, opts, prior }
 }
 
@@ -258,10 +262,6 @@ impl Prop for C13 {
     }
     fn build(&self, ch: &mut Chooser, cx: &mut CaseCtx) -> CliCase {
         let mut c = build_cli_case(ch, cx, 7, false);
-        let misordered = c.ws.fail_at.map_or(false, |j| c.ws.metas[j].ops.iter().any(|o| o.fail_reason.as_deref() == Some("misordered")));
-        if ch.chance(1, 6) && !misordered {
-            c.opts.fuzz = Some(ch.range(1, 2));
-        }
         c
     }
     fn check(&self, case: &CliCase, cx: &mut CaseCtx) -> Verdict {
